@@ -743,11 +743,15 @@ func c11MutatorGuarded(w *World, r *Report, m *ssa.Function, isOpenFile bool) {
 			binds = append(binds, binding{flag: constant.MakeInt64(f)})
 		}
 	}
+	entry := m
 	for _, bind := range binds {
 		cname := "finalized filesystem"
 		if len(bind) > 0 {
 			cname += " [" + bind.key() + "]"
 		}
+		// an exported method that only forwards to an unexported one (OpenFile -> openFile(p, flag, 0)) is judged on
+		// the function it forwards to, with the constants bound to the corresponding parameters
+		m, bind := unwrapForwarder(w, entry, bind)
 		rc := &Reach{w: w, sink: c11Sink, blockEdge: noWorkspace}
 		rc.Run(m, bind)
 		seen := map[string]bool{}
@@ -1111,4 +1115,53 @@ func c11WriteErrorsPropagated(w *World, r *Report) {
 				"the error of "+fnName(g)+" (which asks Storage.Writable()) is dropped: on a read-only backend the mutator reports success: "+why)
 		}
 	}
+}
+
+// unwrapForwarder: if fn's body is a single call of an in-module function whose results it returns unchanged, with
+// every argument one of fn's own parameters or a constant, return that function and the binding translated to its
+// parameters (up to three levels); otherwise fn and bind unchanged.
+func unwrapForwarder(w *World, fn *ssa.Function, bind binding) (*ssa.Function, binding) {
+	for level := 0; level < 3; level++ {
+		if len(fn.Blocks) != 1 {
+			return fn, bind
+		}
+		var call *ssa.Call
+		ok := true
+		for _, ins := range fn.Blocks[0].Instrs {
+			switch x := ins.(type) {
+			case *ssa.Call:
+				if call != nil {
+					ok = false
+				}
+				call = x
+			case *ssa.Extract, *ssa.Return, *ssa.DebugRef:
+			default:
+				ok = false
+			}
+		}
+		if !ok || call == nil {
+			return fn, bind
+		}
+		g := call.Call.StaticCallee()
+		if g == nil || !w.fnSet[g] || g.Blocks == nil || len(call.Call.Args) != len(g.Params) {
+			return fn, bind
+		}
+		nb := binding{}
+		for i, a := range call.Call.Args {
+			switch x := a.(type) {
+			case *ssa.Parameter:
+				if v, has := bind[x]; has {
+					nb[g.Params[i]] = v
+				}
+			case *ssa.Const:
+				if x.Value != nil {
+					nb[g.Params[i]] = x.Value
+				}
+			default:
+				return fn, bind
+			}
+		}
+		fn, bind = g, nb
+	}
+	return fn, bind
 }
